@@ -333,7 +333,7 @@ Theorem unknown_static_state_unchanged : forall d (sI eI : kid) ts idx s m er ir
   Paper.initiation sI eI (TPub (d_static d)) ts idx = Some (s, m) ->
   dev_step d (EInit m er ir) = (d, []).
 Proof.
-  intros d sI eI ts idx s m er ir Hnot Hp. cbn [dev_step].
+  intros d sI eI ts idx s m er ir Hnot Hp. cbn [dev_step]. unfold init_step.
   destruct (negb (check_mac1 (d_static d) (init_body m) (i_mac1 m))); [reflexivity|].
   now rewrite (unknown_static_rejected _ _ false _ _ _ _ _ _ Hnot Hp).
 Qed.
